@@ -829,6 +829,44 @@ def history_spec(rng, live):
     return {"arrays": arrays, "cfgs": cfgs, "live": live}
 
 
+def run_calls(calls):
+    """calls: [[arrays, cfg, via], ...] executed in this order in THIS process; -> the oracle's verdict on the LAST one
+    (None = it states its molecule)."""
+    bad = None
+    for arrays, cfg, via in calls:
+        molrec, out, _, _ = run_case(arrays, cfg, via)
+        bad = oracle(molrec, cfg, out)
+    return bad
+
+
+def with_history(ctx, call, preceding):
+    """A case of the main stream failed in this process, after `preceding` other calls.  Decide in FRESH interpreters what the
+    failure needs: nothing (-> []), or some of the preceding calls (-> the shortest suffix of them found by bisection, reduced to
+    its first call when that alone suffices), or None when no fresh interpreter reproduces it."""
+    fails = lambda calls: bool(text_history.fresh({"kind": "cases", "calls": calls}))
+    if fails([call]):
+        return []
+    if not preceding or not fails(preceding + [call]):
+        return None
+    lo, hi = 1, len(preceding)              # fails with the last `hi` preceding calls; find a short suffix that still fails
+    while lo < hi:
+        mid = (lo + hi) // 2
+        if fails(preceding[-mid:] + [call]):
+            hi = mid
+        else:
+            lo = mid + 1
+    suffix = preceding[-hi:]
+    if len(suffix) > 1 and fails([suffix[0], call]):
+        return [suffix[0]]
+    kept = list(suffix)
+    if len(kept) <= 12:
+        for c in list(kept[1:]):            # the first call of a shortest suffix is needed; try dropping each of the others
+            trial = [x for x in kept if x is not c]
+            if fails(trial + [call]):
+                kept = trial
+    return kept
+
+
 def correspond(ctx):
     corr = Corr()
     corr.rule = ("validated molecules (from_arrays, and via Molecule -> from_schema) of 1-12 atoms with ghosts, labels, 1-4 fragments, "
@@ -858,6 +896,7 @@ def correspond(ctx):
             cases.append(("family", arrays_v, cfg, "molecule"))
             group.append([arrays_v, cfg])
     terms, meta = [], []
+    executed = []                                   # the calls made so far in this process, in order
     for stream, arrays, cfg, via in cases:
         try:
             molrec, out, conv, conn = run_case(arrays, cfg, via)
@@ -875,13 +914,39 @@ def correspond(ctx):
                 corr.hit(h)
         bad = oracle(molrec, cfg, out)
         if bad:
-            corr.failures.append({"stream": "oracle", "case": case, "what": bad, "observed": list(out)})
+            corr.failures.append({"stream": "oracle", "case": case, "what": bad, "observed": list(out), "_at": len(executed)})
+        executed.append([arrays, cfg, via])
         if not integral_charges(molrec):
             continue
         terms.append(f"({cfg_term(cfg, conv)}, {mol_term(molrec, conn)}, {out_term(out)})")
         meta.append((stream, case, out))
         if stream != "corpus" and len(corr.samples) < 4 and rng.random() < 0.002:
             corr.sample({"input": case, "output": list(out)})
+    # ---- a failing case must replay from its input alone: the first failures are re-run in fresh interpreters; one that
+    #      needs earlier calls (state shared between calls) carries the shortest run of them found ("after"), one that no
+    #      fresh interpreter reproduces goes to the end of the list
+    confirmed, rest, unconfirmed = [], [], []
+    for f in corr.failures:
+        at = f.pop("_at", None)
+        if at is None or len(confirmed) >= 2:
+            rest.append(f)
+            continue
+        call = [f["case"]["arrays"], f["case"]["cfg"], f["case"]["via"]]
+        try:
+            hist = with_history(ctx, call, executed[:at])
+        except Exception as e:
+            corr.errors.append(f"history of a failing case: {e!r}")
+            hist = None
+        if hist is None:
+            f["what"] += " [only in this process: not reproduced in a fresh interpreter, with or without the preceding calls]"
+            unconfirmed.append(f)
+        else:
+            if hist:
+                f["case"] = dict(f["case"], after=hist)
+                f["what"] += f" [after {len(hist)} earlier call(s), first: dtype={hist[0][1]['dtype']} on another molecule]"
+            confirmed.append(f)
+    corr.failures[:] = confirmed + rest + unconfirmed
+
     # ---- history: many calls on ONE molrec dict / ONE live Molecule, compared with a fresh interpreter in reverse order
     nhist = 24 if ctx.thorough else 5
     for k in range(nhist):
@@ -936,8 +1001,8 @@ def replay(ctx, rp):
     if rp.get("stream") == "history" or "cfgs" in case:
         bad = text_history.check_to_string(case)
         return {"input": case, "implementation": None, "oracle": bad, "fails": bool(bad)}
-    for a, c in case.get("after", []):               # the calls that preceded this one in its family
-        run_case(a, c, case.get("via", "from_arrays"))
+    for pre in case.get("after", []):                # the calls that preceded this one (family members / state-setting calls)
+        run_case(pre[0], pre[1], pre[2] if len(pre) > 2 else case.get("via", "from_arrays"))
     molrec, out, conv, conn = run_case(case["arrays"], case["cfg"], case.get("via", "from_arrays"))
     bad = oracle(molrec, case["cfg"], out)
     return {"input": case, "implementation": list(out), "oracle": bad, "fails": bool(bad)}
